@@ -6,6 +6,7 @@ import (
 	"fmt"
 	"sort"
 	"strings"
+	"sync"
 
 	"github.com/nyaruka/gocommon/jsonx"
 	"github.com/nyaruka/goflow/envs"
@@ -29,6 +30,7 @@ type XObject struct {
 	def    XValue
 	props  map[string]XValue
 	source func() map[string]XValue
+	init   sync.Once
 
 	marshalDefault    bool
 	marshalDeprecated bool
@@ -228,8 +230,9 @@ func (x *XObject) hasDefault() bool {
 	return x.Default() != x
 }
 
+// objects such as XObjectEmpty are shared between sessions so initialization has to be safe for concurrent use
 func (x *XObject) ensureInitialized() {
-	if x.props == nil {
+	x.init.Do(func() {
 		props := x.source()
 
 		x.def = x
@@ -241,7 +244,7 @@ func (x *XObject) ensureInitialized() {
 				x.props[p] = v
 			}
 		}
-	}
+	})
 }
 
 // XObjectEmpty is the empty empty
